@@ -31,6 +31,7 @@ def handle (line : String) : String :=
     | "st" :: rest => Streams.driverLine rest obs
     | "pool" :: rest => Pool.driverLine rest obs
     | "srv" :: rest => Server.driverLine rest obs
+    | "srvk" :: rest => Server.kernelLine rest obs
     | "tls" :: rest => Tls.driverLine rest obs
     | _ => (false, false, "unknown-stream", "")
   s!"{boolTok r.1} {boolTok r.2.1} {r.2.2.1} | {r.2.2.2}"
